@@ -74,9 +74,16 @@ def load(repo: Repo) -> TypeDB:
     os.replace(tmp, path)
     with open(path, encoding="utf-8") as handle:
         blob = json.load(handle)
-    # keep the cache directory small
-    entries = sorted((os.path.getmtime(os.path.join(CACHE, f)), f) for f in os.listdir(CACHE) if f.startswith("typedb-"))
-    for _, name in entries[:-12]:
+    # keep the cache directory small: finished entries only (another process's `.tmp` is still being written),
+    # and tolerate entries that a concurrent run removes meanwhile
+    entries = []
+    for name in os.listdir(CACHE):
+        if name.startswith("typedb-") and name.endswith(".json"):
+            try:
+                entries.append((os.path.getmtime(os.path.join(CACHE, name)), name))
+            except OSError:
+                pass
+    for _, name in sorted(entries)[:-24]:
         try:
             os.unlink(os.path.join(CACHE, name))
         except OSError:
